@@ -53,7 +53,7 @@ func execLook(s string) (string, error) { return exec.LookPath(s) }
 // classify turns solver results into discharged / known finding / violation.
 func classify(w *World, cs *Contracts, ms *ModSets, obls []*Obligation, kf *KnownFindings, o runOpts, smtDir string) *outcomeT {
 	oc := &outcomeT{}
-	replayDir := filepath.Join(verifDir, "out", "replay", nonEmpty(o.property, "adhoc"))
+	replayDir := filepath.Join(outDir(), "replay", nonEmpty(o.property, "adhoc"))
 	os.RemoveAll(replayDir)
 	os.MkdirAll(replayDir, 0o755)
 	printedKnown := map[string]bool{}
